@@ -20,6 +20,13 @@ RULE = ("Balancing problems are JSON descriptions (species -> composition incl. 
         "oracle is exact (Fraction RREF null space, enumerated / certificate-checked feasibility, exhaustive search for "
         "a smaller coefficient sum).  Non-trivial = at least one mode returned an answer, or the case is a planted "
         "wrong-side case (all modes must refuse); distinct by case digest.")
+# Judgement calls (see the final report):
+#  * "feasible => must answer" is demanded only where the statement promises an answer: single-ray problems (all
+#    modes) and mode None; mode False may refuse any under-determined problem, mode True is only judged when it answers.
+#  * allow_duplicates: the answer must be a placement of the given species (every non-duplicated species kept, each
+#    duplicated one on at most one of its sides) that satisfies the mode-None clauses for that placement; a refusal is
+#    a violation only if a placement keeping *every* species is feasible.
+#  * the three gcd normalisations in chempy are mutually redundant; only their joint removal changes answers.
 ASSUMPTIONS = ["scipy.optimize.linprog (HiGHS) only proposes witnesses/certificates; each is verified with Fractions",
                "vlib/refdata.py symbol->Z table for the textbook formulas",
                "minimal-sum clause certified by complete enumeration only when (sum-n)^nullity <= 3e6, else counted "
@@ -219,8 +226,10 @@ def check_balance(case, ctx):
         if an["feasible"] is False:
             if fs:
                 # parametric family although no member of it is positive
+                # manifest = a single coefficient is negative for every positive value of the parameters
+                manifest = any(bool(getattr(c, "is_negative", False)) for c in coeffs)
                 ctx.fail("infeasible_answered_parametric", mode=mname, got=[str(c) for c in coeffs],
-                         certificate=an["certificate"], species=names, nullity=d)
+                         certificate=an["certificate"], species=names, nullity=d, manifest=manifest)
             else:
                 ctx.fail("infeasible_answered", mode=mname, got=[str(c) for c in coeffs], species=names, nullity=d)
             continue
@@ -320,12 +329,12 @@ def check_duplicates(case, ctx):
 
 
 SUBCHECKS = [
-    SubCheck("synthetic", check_balance, strategy=G.synthetic_cases(), quick=600, thorough=24000,
+    SubCheck("synthetic", check_balance, strategy=G.synthetic_cases(), quick=1200, thorough=40000,
              rule="G2 synthetic species, 2-6 species, 1-4 keys + charge; planted / wrong-side / free; 3 modes each"),
-    SubCheck("textbook", check_balance, strategy=G.textbook_cases(), quick=160, thorough=4000,
+    SubCheck("textbook", check_balance, strategy=G.textbook_cases(), quick=300, thorough=6000,
              rule="46 literature reactions as formulas, optionally reversed / species moved, dropped, added; "
                   "substances=None / dict / string; 3 modes each"),
-    SubCheck("duplicates", check_duplicates, strategy=G.duplicate_cases(), quick=160, thorough=4000,
+    SubCheck("duplicates", check_duplicates, strategy=G.duplicate_cases(), quick=300, thorough=6000,
              rule="allow_duplicates=True, underdetermined=None, 1-2 species on both sides; returned placement judged "
                   "like mode None; refusal requires every placement (3^k) to be infeasible"),
 ]
